@@ -10,6 +10,7 @@ import (
 	"fmt"
 	"io"
 	"net"
+	"sync/atomic"
 	"time"
 
 	"github.com/miekg/dns"
@@ -75,7 +76,8 @@ func libraryRounds(c xferCase, o *outServer, cli *endpoint) error {
 			if err != nil {
 				return fmt.Errorf("round %d: Transfer.In returned %v", i, err)
 			}
-			r := collect(ch, k, watchdog)
+			round := int32(i)
+			r := collectUntil(ch, k, watchdog, 0, func() bool { return atomic.LoadInt32(&o.handled) > round && cli.readerIdle() })
 			if err := checkComplete(c, r); err != nil {
 				return pbt.Errf("request %d (%s) on the same connection: %v", i, kind, err)
 			}
